@@ -102,6 +102,13 @@ CHECKS = {
             'returned or raised.',
             'State is read after an abandoned thread has been joined (the race is C14); module baseline taken after a warm-up '
             'of benign modes.', '3/C05'),
+    'C17': ('Hypothesis rule-based state machine over files constructed from chunks and marker lines (so the expected '
+            'split is known by construction) and sequences of separate/next_section/verify/tifa/run/stop/resolve; expected '
+            'whole-file lines by reference (code re-positioned with blank lines, then CPython / TIFA outside sections)',
+            'About 3.5k histories per quick run (128k thorough); invariants on lossless split, active code, past-the-end '
+            'behaviour, syntax/TIFA/runtime location and traceback lines, restoration.',
+            'Chunks are built from a fixed line vocabulary with tagged diagnostics; marker patterns: default and one '
+            'custom single-group pattern.', '3/C17'),
 }
 
 NOT_YET = {}
